@@ -347,6 +347,7 @@ func structMain(args []string) {
 	var recent, firstOK []sShape
 	for _, sh := range shapes {
 		c := sCaseT{Fam: "struct", Shape: sh}
+		w.Inflight(c)
 		ev := runStructCase(c)
 		// what this process had seen before: the first declarations that were accepted (whatever
 		// is cached per type name was cached then) and the most recent ones
